@@ -1457,12 +1457,16 @@ int radsrv(struct request *rq) {
     debug(DBG_DBG, "radsrv: code %d, id %d", msg->code, msg->id);
     if (msg->code == RAD_Disconnect_Request) {
         debug(DBG_INFO, "radsrv: disconnect-request not supported");
-        respond(rq, RAD_Disconnect_NAK, maketlv(RAD_Attr_Error_Cause, sizeof(RAD_Err_Unsupported_Extension), &(uint32_t){htonl(RAD_Err_Unsupported_Extension)}), 1);
+        attr = maketlv(RAD_Attr_Error_Cause, sizeof(RAD_Err_Unsupported_Extension), &(uint32_t){htonl(RAD_Err_Unsupported_Extension)});
+        if (attr)
+            respond(rq, RAD_Disconnect_NAK, attr, 1);
         goto exit;
     }
     if (msg->code == RAD_CoA_Request) {
         debug(DBG_INFO, "radsrv: CoA-request not supported");
-        respond(rq, RAD_CoA_NAK, maketlv(RAD_Attr_Error_Cause, sizeof(RAD_Err_Unsupported_Extension), &(uint32_t){htonl(RAD_Err_Unsupported_Extension)}), 1);
+        attr = maketlv(RAD_Attr_Error_Cause, sizeof(RAD_Err_Unsupported_Extension), &(uint32_t){htonl(RAD_Err_Unsupported_Extension)});
+        if (attr)
+            respond(rq, RAD_CoA_NAK, attr, 1);
         goto exit;
     }
     if (msg->code != RAD_Access_Request && msg->code != RAD_Status_Server && msg->code != RAD_Accounting_Request) {
@@ -1535,7 +1539,9 @@ int radsrv(struct request *rq) {
 
     if (!to) {
         if (realm->message && msg->code == RAD_Access_Request) {
-            respond(rq, RAD_Access_Reject, maketlv(RAD_Attr_Reply_Message, strlen(realm->message), realm->message), 1);
+            attr = maketlv(RAD_Attr_Reply_Message, strlen(realm->message), realm->message);
+            if (attr)
+                respond(rq, RAD_Access_Reject, attr, 1);
         } else if (realm->accresp && msg->code == RAD_Accounting_Request) {
             if (realm->acclog)
                 log_accounting_resp(from, msg, (char *)userascii);
